@@ -32,7 +32,7 @@ MatchVal(obs, exp) ==
            [] exp.t = "arr" -> Len(obs.v) = Len(exp.v) /\ \A i \in 1..Len(exp.v) : MatchVal(obs.v[i], exp.v[i])
            [] exp.t = "obj" -> Len(obs.m) = Len(exp.m) /\ \A i \in 1..Len(exp.m) :
                                    obs.m[i][1] = exp.m[i][1] /\ MatchVal(obs.m[i][2], exp.m[i][2])
-           [] exp.t = "num" -> obs.n = exp.n /\ obs.d = exp.d
+           [] exp.t = "num" -> obs.n = exp.n /\ (exp.n = 0 \/ obs.d = exp.d)
            [] exp.t = "str" -> obs.s = exp.s
            [] exp.t = "bool" -> obs.b = exp.b
            [] OTHER -> TRUE
@@ -50,8 +50,8 @@ Legit(obs) == obs.o \in {"val", "undef", "err"}
 \* "ok" | "inc" (the specification abstains) | "no"
 Verdict1(obs, R) ==
     IF ~Legit(obs) THEN "no"
-    ELSE IF R.x = "top" THEN "inc"
-    ELSE IF R.st.perm /\ R.x = "err" /\ obs.o # "err" THEN "inc"
+    ELSE IF R.x = "top" THEN "inc:" \o R.why
+    ELSE IF R.st.perm /\ R.x = "err" /\ obs.o # "err" THEN "inc:member order"
     ELSE IF R.x = "err" THEN
          (IF R.k = "AnyOrUndef" THEN (IF obs.o \in {"err", "undef"} THEN "ok" ELSE "no")
           ELSE IF obs.o # "err" THEN "no"
@@ -60,17 +60,19 @@ Verdict1(obs, R) ==
           ELSE IF "i" \in DOMAIN R /\ "i" \in DOMAIN obs /\ R.i # obs.i THEN "no" ELSE "ok")
     ELSE IF IsUndef(R.r) THEN (IF obs.o = "undef" THEN "ok" ELSE "no")
     ELSE IF obs.o # "val" THEN "no"
-    ELSE IF HasNumX(R.r) THEN "inc"
+    ELSE IF HasNumX(R.r) THEN "inc:number outside the model"
     ELSE IF MatchVal(obs.r, R.r) THEN "ok"
-    ELSE IF R.st.perm THEN (IF PermMatch(obs.r, R.r) THEN "ok" ELSE "inc")
+    ELSE IF R.st.perm THEN (IF PermMatch(obs.r, R.r) THEN "ok" ELSE "inc:member order")
     ELSE "no"
 
 \* all open choices, default first; a deviation only classifies
 Verdict(obs, ast, input, binds) ==
     LET v0 == Verdict1(obs, Run(ast, input, binds, DefaultMd))
     IN  IF v0 # "no" \/ ~Legit(obs) THEN v0
+        ELSE IF HasNull(input) THEN "inc:null in the input"
         ELSE LET vs == {Verdict1(obs, Run(ast, input, binds, md)) : md \in OpenMds}
-             IN  IF "ok" \in vs THEN "ok" ELSE IF "inc" \in vs THEN "inc"
+                 incs == {v \in vs : v # "ok" /\ v # "no"}
+             IN  IF "ok" \in vs THEN "ok" ELSE IF incs # {} THEN CHOOSE v \in incs : TRUE
                  ELSE LET ds == {i \in 1..Len(KnownDevs) :
                                    Verdict1(obs, Run(ast, input, binds, [DefaultMd EXCEPT !.dev = KnownDevs[i]])) = "ok"}
                       IN  IF ds = {} THEN "no" ELSE "dev:" \o KnownDevs[CHOOSE i \in ds : TRUE]
